@@ -123,10 +123,19 @@ def mask_tests(b, storage_org, idx_key, names=("contains",)):
         if c.get("name") not in names or "BitSet" not in (c.get("path", "") + (c.get("self_ty") or "")):
             return False
         mo = b.canon(b.arg_origin(gbb, 0))
-        if parent(mo) != sp or sp is None:
+        if sp is None or not under(mo, sp):
             return False
         return index_key(b, b.arg_origin(gbb, 1)) == idx_key
     return b.bool_guard_edges(is_test)
+
+
+def under(mask_org, owner):
+    """the mask lives in the object that owns the storage: directly beside it, or inside a private sub-struct of that owner
+    (`self.membership.mask` beside `self.cell`)"""
+    if parent(mask_org) == owner:
+        return True
+    return mask_org[0] == owner[0] and mask_org[1] == owner[1] and len(mask_org) > 2 and len(owner) > 2 and \
+        isinstance(mask_org[2], tuple) and isinstance(owner[2], tuple) and len(mask_org[2]) > len(owner[2]) and mask_org[2][:len(owner[2])] == owner[2]
 
 
 def index_key(b, org):
